@@ -387,9 +387,11 @@ struct Counters {
     transitions: std::sync::atomic::AtomicU64,
     histories: std::sync::atomic::AtomicU64,
     dead_prefix: std::sync::atomic::AtomicU64,
+    sink: osrv::VioSink,
 }
 
 fn absorb(report: &Report, cnt: &Counters, ex: &Exec, acc: &mut osrv::Acc, want_sample: bool) -> Option<u64> {
+    let sink = &cnt.sink;
     use std::sync::atomic::Ordering::Relaxed;
     match ex {
         Exec::DeadPrefix(_, _) => {
@@ -423,7 +425,7 @@ fn absorb(report: &Report, cnt: &Counters, ex: &Exec, acc: &mut osrv::Acc, want_
                 }));
             }
             for v in vs {
-                report.violation(v);
+                sink.push(report, v);
             }
             post.as_ref().ok().map(|o| hash64(o))
         }
@@ -456,6 +458,7 @@ pub fn main(args: &Args) -> i32 {
         transitions: 0.into(),
         histories: 0.into(),
         dead_prefix: 0.into(),
+        sink: Default::default(),
     };
 
     // Phase 1: the full history tree, no merging.
@@ -551,6 +554,8 @@ pub fn main(args: &Args) -> i32 {
     report.set("histories_pruned_after_panic", json!(cnt.dead_prefix.load(Relaxed)));
     report.set("alphabet", json!(alpha.iter().map(|o| o.show()).collect::<Vec<_>>()));
     report.set("merged_search", merged);
+    report.set("violating_transitions", json!(cnt.sink.total()));
+    report.set("violating_transitions_by_identity", cnt.sink.summary());
     report.assume("each transition is one API call followed by running every task of both connections until nothing is enabled (default schedule); schedule variation inside a transition is not explored here");
     report.assume("the probe (lookup + method call + property read + Introspect of every universe path) is itself an operation of the alphabet, so histories with and without intermediate probes are both covered");
     report.finish(
